@@ -13,12 +13,10 @@ def getFuel (j : Json) : Nat :=
   | .ok n => n
   | .error _ => 200
 
-/-- codec: everything about one (schema, struct, value?, bytes?) case -/
-def opCodec (j : Json) : Except String Json := do
-  let S ← J.schema (← j.getObjVal? "schema")
-  let name ← j.getObjValAs? String "struct"
-  let fuel := getFuel j
-  let ty := resolve S fuel (.struct name)
+/-- codec: everything about one (schema, struct) and a list of items, each with a
+`value` and/or `bytes` -/
+def codecItem (S : Schema) (name : String) (fuel : Nat) (ty : Option Ty) (j : Json) :
+    Except String Json := do
   let mut out : List (String × Json) := [("resolved", Json.bool ty.isSome)]
   match j.getObjVal? "value" with
   | .ok vj =>
@@ -40,6 +38,17 @@ def opCodec (j : Json) : Except String Json := do
     out := out ++ [("py_dec", exceptJson J.valToJson (pyDecode S fuel name bs))]
   | .error _ => pure ()
   return Json.mkObj out
+
+def opCodec (j : Json) : Except String Json := do
+  let S ← J.schema (← j.getObjVal? "schema")
+  let name ← j.getObjValAs? String "struct"
+  let fuel := getFuel j
+  let ty := resolve S fuel (.struct name)
+  match j.getObjValAs? (Array Json) "items" with
+  | .ok items =>
+    let outs ← items.mapM (codecItem S name fuel ty)
+    return Json.mkObj [("items", Json.arr outs)]
+  | .error _ => codecItem S name fuel ty j
 
 /-- `_Buffer` operation sequences -/
 def opBuf (j : Json) : Except String Json := do
